@@ -161,6 +161,11 @@ func (ev *cenv) eval(e *CExpr) *Val {
 			ev.fail("result not available here")
 		}
 		v := ev.lookupIdent(e.Name)
+		if v == nil && ev.st != nil {
+			if bx := ev.lookupIdent("&box:" + e.Name); bx != nil && bx.LV != nil {
+				return ev.loadLV(bx.LV)
+			}
+		}
 		if v == nil && loopNameRe.MatchString(e.Name) {
 			// range index / count of a loop that was not entered on this path
 			return missingVal()
@@ -565,7 +570,7 @@ func (ev *cenv) sel(e *CExpr) *Val {
 	E := ev.E
 	// package-qualified name?
 	if e.Args[0].Op == "ident" {
-		if _, isVar := ev.bound[e.Args[0].Name]; !isVar && ev.lookupIdent(e.Args[0].Name) == nil {
+		if _, isVar := ev.bound[e.Args[0].Name]; !isVar && ev.lookupIdent(e.Args[0].Name) == nil && ev.lookupIdent("&box:"+e.Args[0].Name) == nil && !(ev.fc != nil && ev.fc.fn != nil && fnHasLocal(ev.fc.fn, e.Args[0].Name)) {
 			path := e.Args[0].Name
 			if ev.ctx != nil {
 				if p, ok := ev.ctx.Imports[path]; ok {
@@ -889,6 +894,27 @@ func (ev *cenv) call(e *CExpr) *Val {
 				b = E.zeroVal(a.T)
 			}
 			return E.iteVal(c, a, b)
+		case "private":
+			// private(x): the object x points to was allocated by this function and its address
+			// has not been written to memory or handed to other code (decided syntactically, priv.go)
+			x := ev.eval(args[0])
+			if isMissing(x) || ev.st == nil {
+				return boolVal("false")
+			}
+			t := x.S
+			if x.F != nil {
+				t = x.F[0].S
+			}
+			if E.isPrivate(ev.st, t) {
+				return boolVal("true")
+			}
+			return boolVal("false")
+		case "implements":
+			// implements(x, I): the dynamic type of interface value x implements interface type I
+			x := ev.eval(args[0])
+			T := ev.typeFromExpr(args[1])
+			E.declare("|implements|", "(Int Int) Bool")
+			return boolVal(sx("|implements|", x.F[0].S, intLit(int64(E.typeID(T)))))
 		case "istype":
 			x := ev.eval(args[0])
 			T := ev.typeFromExpr(args[1])
